@@ -1,7 +1,62 @@
 package main
 
-// tryReplay attempts to turn a failed obligation into a concrete failing input on the
-// real code. Returns nil when no replay strategy applies.
+import (
+	"os"
+	"path/filepath"
+	"strings"
+)
+
+// Replay harnesses (witness search on the real code, injected with `go test -overlay`): each
+// runs the real entry points on inputs chosen for one property and checks the property's
+// observable statement. They never decide a property; they turn a failed obligation into a
+// concrete failing input when they can.
+type replayHarness struct {
+	files  map[string]string // name in package -> file under /verif/replay
+	test   string
+	marker string
+	input  string
+}
+
+var replayHarnesses = map[string]replayHarness{
+	"C06": {map[string]string{"zz_govc_abs_replay_test.go": "absurl_replay_test.go"}, "TestGovcAbsURLReplay", "not absolute", "article with relative links/media in every element kind, page URL http://example.com/dir/page.html"},
+	"C10": {map[string]string{"zz_govc_frames_replay_test.go": "frames_replay_test.go"}, "TestGovcFramesReplay", "modified the caller", "sample documents x algorithms x page URLs x entry points, deep before/after snapshot"},
+	"C11": {map[string]string{"zz_govc_det_replay_test.go": "determinism_replay_test.go"}, "TestGovcDeterminismReplay", "different results", "documents exercising the map-range sites, 300 runs each"},
+	"C13": {map[string]string{"zz_govc_options_replay_test.go": "options_replay_test.go", "zz_govc_det_replay_test.go": "determinism_replay_test.go"}, "TestGovcOptionsReplay", "differs", "sample documents x 16 log-flag sets x pagination options"},
+	"C01": {map[string]string{"zz_govc_total_replay_test.go": "totality_replay_test.go"}, "TestGovcTotalityReplay", "panic", "fragments, odd roots and URLs x options"},
+	"C03": {map[string]string{"zz_govc_para_replay_test.go": "paragraph_replay_test.go"}, "TestGovcParagraphReplay", "cut", "simple paragraphs with inline children in several placements"},
+	"C02": {map[string]string{"zz_govc_para_replay_test.go": "paragraph_replay_test.go"}, "TestGovcExcerptReplay", "excerpt", "unique-token article pages"},
+	"C04": {map[string]string{"zz_govc_hidden_replay_test.go": "hidden_replay_test.go"}, "TestGovcHiddenReplay", "leaks", "hidden/script content in main flow, tables and captions"},
+	"C05": {map[string]string{"zz_govc_hidden_replay_test.go": "hidden_replay_test.go"}, "TestGovcInertReplay", "not inert", "elements with handlers/ids/classes/styles in every element kind"},
+	"C15": {map[string]string{"zz_govc_title_replay_test.go": "title_replay_test.go"}, "TestGovcTitleReplay", "title", "title shapes x headings"},
+	"C16": {map[string]string{"zz_govc_pager_replay_test.go": "pager_replay_test.go"}, "TestGovcPagerLinksReplay", "not a real", "pagers with javascript:/off-site/malformed links, both algorithms"},
+	"C17": {map[string]string{"zz_govc_pager_replay_test.go": "pager_replay_test.go"}, "TestGovcConventionalPagerReplay", "expected", "N in 2..12 x k in 1..N x URL families"},
+}
+
+var replayCache = map[string]map[string]interface{}{}
+
+// tryReplay attempts to turn a failed obligation into a concrete failing input on the real code.
 func tryReplay(p *Program, id string, vc *VC, ob *Oblig) map[string]interface{} {
-	return nil
+	return runHarness(p, id)
+}
+
+func runHarness(p *Program, id string) map[string]interface{} {
+	if r, ok := replayCache[id]; ok {
+		return r
+	}
+	h, ok := replayHarnesses[id]
+	if !ok {
+		return nil
+	}
+	files := map[string]string{}
+	for as, f := range h.files {
+		full := filepath.Join(verifDir, "replay", f)
+		if _, err := os.Stat(full); err != nil {
+			return nil
+		}
+		files[as] = full
+	}
+	out, failed, cmd := runOverlayTests(p.repo, ".", files, h.test)
+	r := map[string]interface{}{"command": cmd, "confirmed": failed && strings.Contains(out, h.marker), "output": tail(out, 2500), "input": h.input}
+	replayCache[id] = r
+	return r
 }
